@@ -19,6 +19,8 @@ RUN_PROFILES = {
     "parloop_mix": dict(w={"parloop": 4, "call": 4, "count": 3, "while": 1, "cond": 2, "parallel": 2, "service": 3},
                         imm=0.1, params=0.3, parloop_shapes="all", max_block=2, max_tasks=4),
     "junk": dict(junk=0.4, imm=0.1),
+    # Parallel blocks executed repeatedly, with late / duplicate completions of earlier iterations
+    "parallel_junk": dict(junk=0.4, imm=0.1, w={"count": 4, "while": 1, "parallel": 5, "call": 3, "service": 3}),
     # identifiers across junk events and repeated start() calls in the middle of a run
     "ids_junk": dict(junk=0.45, imm=0.2, w={"count": 5, "while": 1, "parallel": 1, "call": 2, "service": 4}),
     "uuid": dict(test_ids=False, imm=0.2, w={"count": 3, "parallel": 2, "parloop": 1}),
@@ -68,7 +70,7 @@ PROPS = {
                 profiles=["blocks", "default", "imm", "loops", "react_loops"], quick=240, thorough=6000,
                 finding_profiles=["parloop_all", "parloop_mix"]),
     "C03": dict(kind="run", proj="P_set", mon="mon_C03", property_files=("C02seq", "C03fork", "Refinement", "RefinementTransfer"),
-                profiles=["parallel", "parloop", "react"], quick=240, thorough=6000,
+                profiles=["parallel", "parloop", "react", "parallel_junk"], quick=240, thorough=6000,
                 finding_profiles=["parloop_all"]),
     "C04": dict(kind="run", proj="P_C04", mon="mon_C04", property_files=("C04ctx", "C02seq", "C04decide", "Refinement", "RefinementTransfer"),
                 profiles=["cond", "default", "react_loops"], quick=240, thorough=6000,
